@@ -404,6 +404,15 @@ def verify_target(db, reg, key, timeout_ms=20000, want_smt2=False, findings=(), 
                 if want_smt2:
                     o['smt2'] = vc_smt2(vc)
             else:
+                if o['verdict'] != 'sat' and tier_quick(timeout_ms) and not os.environ.get('PYVC_NO_RETRY'):
+                    # undecided within the quick budget: one long retry before this is reported (an alarm on the
+                    # unchanged tree must never come from a busy machine)
+                    r3 = smt.solve_full(smt.full_formulas(pc, vc.goal), 180000)
+                    o['ms'] += r3['ms']
+                    if r3['verdict'] == 'unsat':
+                        if 'z3-long' not in o['backend']:
+                            o['backend'].append('z3-long')
+                        continue
                 if o['verdict'] != 'sat':
                     o['verdict'] = 'unknown'
                     o['why'] = str(why)
